@@ -286,8 +286,10 @@ func runStep(r *consul.ACLResolver, b *fakeBackend, rc ResolveCase, st StepScrip
 	t0 := b.t0
 	b.mu.Unlock()
 	rc.Step, rc.Class, rc.Now = st, secretClass(secret), ns(t0)
+	var cachedIn *structs.ACLToken
 	if id, ok := r.VerifC09CachedIdentity(cacheKey); ok {
 		rc.CacheIn = identTerm(id)
+		cachedIn, _ = id.(*structs.ACLToken)
 	}
 	res, err := r.ResolveToken(secret)
 	t1 := time.Now()
@@ -296,10 +298,11 @@ func runStep(r *consul.ACLResolver, b *fakeBackend, rc ResolveCase, st StepScrip
 		rc.CacheOut = identTerm(id)
 	}
 	b.mu.Lock()
+	// every policy id ever handed out on this resolver: a failed policy fetch leaves a negative
+	// cache entry behind, also for the policies of an identity that was served from the cache
 	for _, p := range b.policies {
 		r.VerifC09ForgetPolicy(p)
 	}
-	b.policies = nil
 	var atts []T
 	for _, a := range st.Attempts {
 		var bk, rpc T
@@ -382,6 +385,25 @@ func runStep(r *consul.ACLResolver, b *fakeBackend, rc ResolveCase, st StepScrip
 			c.Mode = "ambiguous-window"
 		}
 	}
+	// an expiration time inside the call window [t0, t1] makes the expected outcome depend on the
+	// instant of the test: such steps are recorded but not compared (the machine may stall)
+	inWindow := func(t *structs.ACLToken) bool {
+		return t != nil && t.ExpirationTime != nil && !t.ExpirationTime.IsZero() &&
+			!t.ExpirationTime.Before(t0) && !t.ExpirationTime.After(t1)
+	}
+	b.mu.Lock()
+	for _, t := range b.toks {
+		if inWindow(t) {
+			c.Mode = "ambiguous-window"
+		}
+	}
+	b.mu.Unlock()
+	if inWindow(cachedIn) {
+		c.Mode = "ambiguous-window"
+	}
+	if c.Mode == "ambiguous-window" {
+		c.Oracle, c.Sig = "", nil
+	}
 	if c.Oracle != "" && c.Sig == nil {
 		c.Sig = map[string]any{"kind": "resolver"}
 	}
@@ -432,7 +454,7 @@ func randAttempt(rng *rand.Rand, serverLike bool, acc int) AttemptScript {
 func genResolveCases(rng *rand.Rand, tier string, emit func(*Case)) {
 	seqs := 120
 	if tier == "thorough" {
-		seqs = 2500
+		seqs = 1500
 	}
 	for s := 0; s < seqs; s++ {
 		rc := ResolveCase{Down: downPolicies[rng.Intn(4)], ACLs: rng.Intn(12) != 0, Fresh: rng.Intn(2) == 0}
